@@ -284,13 +284,11 @@ int run_set(ygm::comm& world, const std::vector<std::string>& lines) {
   return 0;
 }
 
-extern "C" int sim_main(int argc, char** argv) {
-  ygm::comm world(MPI_COMM_WORLD);
-  hc::open_out(world.rank());
+// the scenario body takes the communicator as a parameter: the same code (same template instantiations, same lambda /
+// functor types) runs on a sub-communicator and on the world communicator of one process
+static int dispatch(ygm::comm& world, const std::string& what, const std::string& kinds, const std::string& variant,
+                    const std::vector<std::string>& lines) {
   g_log_pack = world.size() == 1;
-  if (argc < 4) { hc::out("usage"); return 2; }
-  std::string what = argv[1], kinds = argv[2], variant = argc > 4 ? argv[4] : "d";
-  auto lines = read_lines(argv[3]);
   using str = std::string;
   using hp_s = ygm::container::detail::hash_partitioner<str>; using hp_i = ygm::container::detail::hash_partitioner<i64>;
   if (variant == "g") {
@@ -328,4 +326,46 @@ extern "C" int sim_main(int argc, char** argv) {
   }
   hc::out("bad-kinds");
   return 2;
+}
+
+// args: what kinds scenario [variant] [comms]
+//   comms: "w" world only (default) | "sw-<split>" sub-communicator first, then world | "ws-<split>" world first, then sub
+//   split (by the local id of a rank on its node, so that sub-communicators keep a uniform ranks-per-node layout):
+//   "last" = local ids 0..ppn-2 versus local id ppn-1,  "parity" = even versus odd local ids (every rank is in one
+//   sub-communicator, every sub-communicator runs the scenario: ranks named by the script that do not exist there issue nothing)
+// `PH <world|sub> <group> <rank> <size>` precedes the output of each run.
+extern "C" int sim_main(int argc, char** argv) {
+  int wr = 0, wn = 1;
+  MPI_Comm_rank(MPI_COMM_WORLD, &wr); MPI_Comm_size(MPI_COMM_WORLD, &wn);
+  hc::open_out(wr);
+  if (argc < 4) { hc::out("usage"); return 2; }
+  std::string what = argv[1], kinds = argv[2], variant = argc > 4 ? argv[4] : "d", comms = argc > 5 ? argv[5] : "w";
+  auto lines = read_lines(argv[3]);
+  auto run_world = [&]() {
+    ygm::comm world(MPI_COMM_WORLD);
+    hc::out("PH world 0 " + std::to_string(world.rank()) + " " + std::to_string(world.size()));
+    return dispatch(world, what, kinds, variant, lines);
+  };
+  auto run_sub = [&]() {
+    bool parity = comms.find("parity") != std::string::npos;
+    // split by the rank's local id on its node, so that every sub-communicator has the same number of ranks on every node
+    const char* e = getenv("SIMMPI_PPN"); int ppn = e ? atoi(e) : wn; if (ppn <= 0 || wn % ppn != 0) ppn = wn;
+    int local = wr % ppn;
+    int colour = parity ? (local % 2) : (local < ppn - 1 ? 0 : 1);
+    MPI_Comm subc;
+    MPI_Comm_split(MPI_COMM_WORLD, colour, wr, &subc);
+    int rc;
+    {
+      ygm::comm sub(subc);
+      hc::out("PH sub " + std::to_string(colour) + " " + std::to_string(sub.rank()) + " " + std::to_string(sub.size()));
+      rc = dispatch(sub, what, kinds, variant, lines);
+    }
+    MPI_Comm_free(&subc);
+    return rc;
+  };
+  int rc = 0;
+  if (comms.rfind("sw", 0) == 0) { rc = run_sub(); if (rc == 0) rc = run_world(); }
+  else if (comms.rfind("ws", 0) == 0) { rc = run_world(); if (rc == 0) rc = run_sub(); }
+  else rc = run_world();
+  return rc;
 }
